@@ -5,7 +5,7 @@ from .. import gen
 from ..common import Verdict, digest, rng_for, run_shards, seed, tier
 
 PROP = "C12"
-N = {"quick": 4000, "thorough": 100000}
+N = {"quick": 8000, "thorough": 120000}
 
 
 def tree_samples(rng):
